@@ -117,6 +117,14 @@ def strategy(tier):
              "pre_sens": draw(st.sampled_from([False, False, True])),   # sensitivities left in the network beforehand
              "payload_seed": draw(st.integers(0, 2 ** 31 - 1))}
         c.update(par)
+        if c["var_form"] in ("slices", "fancy"):
+            # slices of one design field: every variable is an array (scalar kinds would silently fall back to "signals")
+            for sg in c["sigs"]:
+                if sg["kind"] != "arr":
+                    sg["kind"], sg["size"] = "arr", draw(st.integers(1, 6))
+        # the array given as per-variable xmin is also the initial state of the (single, array) variable signal: start
+        # on the lower bound with one shared array object (x = xmin.copy() forgotten)
+        c["alias_bound"] = draw(st.sampled_from([False, False, False, True]))
         return c
 
     return case()
@@ -248,6 +256,10 @@ def build_problem(case):
         if case["start"] == "on_bound":
             pick = rng.random(n)
             x0 = np.where(pick < 0.3, xmin, np.where(pick > 0.7, xmax, x0))
+    alias_bound = bool(case.get("alias_bound") and k == 1 and case["sigs"][0]["kind"] == "arr" and case["xmin_form"] == "per_var"
+                       and case.get("var_form", "signals") in ("signals", "prealloc") and case.get("int_start", "none") == "none")
+    if alias_bound:
+        x0 = xmin.copy()
     int_sigs = []
     if case.get("int_start", "none") != "none" and case.get("var_form", "signals") in ("signals", "prealloc"):
         for i in range(k if case["int_start"] == "all" else 1):
@@ -312,7 +324,7 @@ def build_problem(case):
         kw["mmaversion"] = case["version"]
     if case.get("asybound", "default") != "default":
         kw["asybound"] = case["asybound"]
-    return {"int_sigs": int_sigs, "n": n, "k": k, "sizes": sizes, "cum": cum, "xmin": xmin, "xmax": xmax, "move": move, "x0": x0,
+    return {"alias_bound": alias_bound, "int_sigs": int_sigs, "n": n, "k": k, "sizes": sizes, "cum": cum, "xmin": xmin, "xmax": xmax, "move": move, "x0": x0,
             "xref": xref, "f": [f0] + cons, "subsets": [list(range(k))] + subsets, "kw": kw}
 
 
@@ -560,6 +572,8 @@ def run_mma(case, prob, rec):
         variables = []
         for i, sg in enumerate(case["sigs"]):
             st0 = _make_state(sg["kind"], prob["x0"][cum[i]:cum[i + 1]])
+            if prob.get("alias_bound"):
+                st0 = prob["kw"]["xmin"]            # the very array object that is passed as xmin
             if i in prob.get("int_sigs", ()):
                 st0 = st0.astype(int) if isinstance(st0, np.ndarray) else (np.int64(st0) if isinstance(st0, np.floating) else int(st0))
             if form == "prealloc" and isinstance(st0, np.ndarray) and st0.ndim >= 1:
@@ -669,6 +683,8 @@ def check_case(case, _debug=None):
     labels.append("n<=3" if n <= 3 else ("n<=12" if n <= 12 else "n>12"))
     if case.get("asybound", "default") not in ("default", 10.0):
         labels.append("asybound_not_default")
+    if prob.get("alias_bound"):
+        labels.append("initial_state_is_the_xmin_array")
     if prob.get("int_sigs"):
         labels.append("integer_initial_state" + ("_all" if len(prob["int_sigs"]) == k else "_mixed_with_float"))
     V = []
